@@ -432,7 +432,8 @@ class C04(Check):
                   "flow-removed stream — removed_stream_refines — equal the standard's: ADD replace/overlap incl. CIDR/full/emergency, MODIFY[_STRICT] incl. acts-as-add, DELETE[_STRICT] "
                   "with out_port filter, unknown command, buffer_id release with BUFFER_UNKNOWN/EMPTY, packet accounting and miss buffering, sweeps, flow/aggregate stats); "
                   "history_refines_repaired (with the three proposed repairs only C03's open findings D38/D36/D26 remain as hypotheses); selection_meaning, overlap_meaning, "
-                  "overlap_check_exact. The unrestricted statement history_refines_full is kept and refuted for both variants (history_refines_full_defect_head / _repaired); "
+                  "overlap_check_exact; undefined_bits_absent (records that differ in wildcard bits 22..31 only give the handlers the same match object: same stored entry, same strict / "
+                  "non-strict / out_port selection whichever spelling installed or names the flow). The unrestricted statement history_refines_full is kept and refuted for both variants (history_refines_full_defect_head / _repaired); "
                   "strict_hostbits_defect, undefined_bits_defect, stats_unwired_defect witness C04-1/2/3 at HEAD and their repair; partial_overlap_witness, cidr_overlap_witness "
                   "are D23's inputs. Every witness is replayed on the real switch on every run. "
                   "flowmod/history_refines also prove that the 40 match bytes each flow-removed / flow-stats message carries (match.pack()) denote exactly the flow's packets (FaithfulOut); "
@@ -469,7 +470,10 @@ class C04(Check):
             "table-full / emergency / buffer / unknown-command / CIDR-overlap seeds + the HARDENING.md families (same frame / same stats request twice with each kind of change in between; "
             "earliest-deadline grid; flows sharing one action list; priorities 0/1/32767/32768/65534/65535, cookies 0/2^63/2^64-1, timeouts 1/65535 s, out_port 0 and virtual ports in filters and "
             "actions; tables of capacity 0/1/3 exactly full; several flows expiring at one sweep for different reasons, both deadlines of one flow between two sweeps; several messages in ONE read "
-            "(`batch`)); case modes: `decoy` (a second switch in the same process gets the same events in reverse order, interleaved) and `no_data` (rx_packet without packet_data); "
+            "(`batch`)); the SPELLINGS family: every operation on a flow written as another wire record of the same flow (undefined wildcard bits 22..31 each alone / all / "
+            "0xffffffff / OFPFW_ALL|high, prefix counts 33..63, wildcard bits and values of fields the prerequisites make ignored, values left in wildcarded fields, address bits below "
+            "the prefix, ECN bits) on the first operation, the second, both, for every command in either place, traffic / statistics / a sweep in between; random histories are "
+            "respelt the same way with probability 0.3; case modes: `decoy` (a second switch in the same process gets the same events in reverse order, interleaved) and `no_data` (rx_packet without packet_data); "
             "non-trivial = a flow-removed is written or the table holds >= 2 entries")
     coverage_cases = 400
 
@@ -485,6 +489,7 @@ class C04(Check):
             self.c03.pkt, self.c03.IPAddr, self.c03.EthAddr, self.c03.of = pkt, IPAddr, EthAddr, of
         self._frames = None
         self._ecn_case = False
+        self._spell = {}
         self.pool_seen = True
         self.cfg = self.probe_variant()
         # is the buffer store observable the way this harness knows?  (one miss must show as one occupied slot)
@@ -794,6 +799,12 @@ class C04(Check):
                     c = copy.deepcopy(case); del c["ops"][i]["ops"][j]; yield c
         for i in range(len(ops)):
             c = copy.deepcopy(case); del c["ops"][i]; yield c
+        for i, op in enumerate(ops):                                   # a plainer spelling of a match: no undefined bits, only the lowest of them
+            if op["op"] in ("fm", "fstats", "astats") and op["m"][W] >> 22:
+                c = copy.deepcopy(case); c["ops"][i]["m"][W] &= 0x3fffff; yield c
+                low = (op["m"][W] >> 22) & -(op["m"][W] >> 22)
+                if low != op["m"][W] >> 22:
+                    c = copy.deepcopy(case); c["ops"][i]["m"] = with_hi(op["m"], low); yield c
         for i, op in enumerate(ops):
             if op["op"] == "fm":
                 for k, v in (("flags", op["flags"] & CHECK_OVERLAP), ("idle", 0), ("hard", 0), ("out_port", NONE)):
@@ -874,13 +885,13 @@ class C04(Check):
         cases += self.spelling_cases()
         return cases
 
-    def spelling_cases(self):
+    def spelling_cases(self, full=False):
         """every operation on a flow uses another wire spelling of it (see `spellings`): the first, the second, both, for every
         command in either place, with traffic and statistics in between; all through the switch connection as bytes"""
         fr = self.frames()
         pk = lambda i, port=1: {"op": "pkt", "frame": fr[i], "port": port}
-        fs = lambda m=M_ALL, port=NONE: {"op": "fstats", "m": list(m), "out_port": port}
-        ags = lambda m=M_ALL, port=NONE: {"op": "astats", "m": list(m), "out_port": port}
+        adv = lambda dt: {"op": "adv", "dt": dt}
+        sw = {"op": "sweep"}
         F = SEND_FLOW_REM
         out = []
         def add(ops, **kw): out.append(dict({"max": 100, "ops": copy.deepcopy(ops), "fam": "spell"}, **kw))
@@ -890,21 +901,25 @@ class C04(Check):
         for nf, (r, hit) in enumerate(flows):
             S = spellings(r, self.cfg)
             if not S: continue
+            # statistics requests are respelt only where the tree unwires them (C04-3)
+            fs = lambda m=M_ALL, port=NONE, r=r: {"op": "fstats", "m": list(m if self.cfg[2] or m is M_ALL else r), "out_port": port}
+            ags = lambda m=M_ALL, port=NONE, r=r: {"op": "astats", "m": list(m if self.cfg[2] or m is M_ALL else r), "out_port": port}
             pairs = []
             for j, s in enumerate(S): pairs += [(r, s), (s, r), (s, s), (s, S[(j + 1) % len(S)])]
             # (a) one long history per pair of spellings: every command meets the flow installed under the other spelling
             for j, (s1, s2) in enumerate(pairs):
                 first = [ADD, MODIFY, MODIFY_STRICT][j % 3]                         # MODIFY[_STRICT] on an empty table acts as ADD
-                add([fm(first, s1, 100, F, acts=ACTS[1], cookie=1), hit, fm(ADD, s2, 100, F, acts=ACTS[2], cookie=2), hit, fs(s1),
-                     fm(MODIFY_STRICT, s1, 100, acts=ACTS[4], cookie=3), fm(MODIFY, s2, 7, acts=ACTS[6], cookie=4), hit, ags(s2, 2),
+                # (the replacement restarts the clocks: the flow must survive the sweep at which the replaced entry would have gone)
+                add([fm(first, s1, 100, F, acts=ACTS[1], hard=2, cookie=1), hit, adv(1000), fm(ADD, s2, 100, F, acts=ACTS[2], hard=2, cookie=2), hit, fs(s1),
+                     adv(1125), sw, fm(MODIFY_STRICT, s1, 100, acts=ACTS[4], cookie=3), fm(MODIFY, s2, 7, acts=ACTS[6], cookie=4), hit, ags(s2, 2),
                      fm(DELETE_STRICT, s2, 99), fm(DELETE_STRICT, s1, 100, out_port=3), fm(DELETE_STRICT, s2, 100, out_port=2),
                      fm(ADD, s1, 100, F | CHECK_OVERLAP, cookie=5), fm(ADD, s2, 100, F | CHECK_OVERLAP, cookie=6), hit, fm(DELETE, s2, 0), fs()])
             # (b) short histories, one per command in second place (so that each has its own failing input), over the undefined
             #     wildcard bits at both ends of the range / all of them and two spellings of the other kinds
             few = [s for s in S if s[W] >> 22 in (1, 0x200, 0x3ff) and s[1:] == list(r)[1:] and (s[W] ^ r[W]) & 0x3fffff == 0] + [s for s in S if s[W] >> 22 == 0][nf % 2::3][:2]
-            for s in few:
-                for (s1, s2) in ((r, s), (s, r), (s, s)):
-                    for first in ((ADD,) if s1 is r else (ADD, MODIFY, MODIFY_STRICT)):
+            for j, s in enumerate(S if full else few):               # thorough tier: every spelling
+                for (s1, s2) in ((r, s), (s, r), (s, s)) + (((s, S[(j + 1) % len(S)]),) if full else ()):
+                    for first in ((ADD,) if s1 is r else (ADD, [MODIFY, MODIFY_STRICT][j % 2]) if full else (ADD, MODIFY, MODIFY_STRICT)):
                         for (cmd, flags) in second:
                             add([fm(first, s1, 100, F, acts=ACTS[1], cookie=1), hit, fm(cmd, s2, 100, flags, acts=ACTS[2], cookie=2), hit, fs(s2)])
             # (c) another flow with the same spelling habits next to it, at another priority: only the named flow is concerned
@@ -921,7 +936,7 @@ class C04(Check):
         def one(op):
             if op["op"] == "batch":
                 for o in op["ops"]: one(o)
-            elif op["op"] in ("fm", "fstats", "astats") and rng.random() < 0.7:
+            elif (op["op"] == "fm" or (op["op"] in ("fstats", "astats") and self.cfg[2])) and rng.random() < 0.7:
                 key = tuple(op["m"])
                 if key not in self._spell: self._spell[key] = spellings(op["m"], self.cfg)
                 m = list(rng.choice(self._spell[key] or [op["m"]]))
@@ -1058,6 +1073,7 @@ class C04(Check):
             A = self.small_alphabet()
             for ops in itertools.product(A, repeat=4):
                 yield {"max": 100, "ops": [copy.deepcopy(o) for o in ops]}
+            for c in self.spelling_cases(full=True): yield c
         n = 1500 if tier == "quick" else 15000
         for _ in range(n):
             L = rng.choice([5, 12, 30, 60, rng.randint(1, 60)])
@@ -1069,6 +1085,7 @@ class C04(Check):
             mode = rng.random()
             if mode < 0.12: case["decoy"] = True            # a second switch in the same process gets the same events in another order
             elif mode < 0.22: case["no_data"] = True        # rx_packet(packet, port) without the packed bytes
+            if rng.random() < 0.3: case = self.respell(rng, case)   # every operation in another wire spelling of its flow
             yield case
 
 
@@ -1076,6 +1093,6 @@ C04.theorems = ["Pox.C04." + t for t in (
     "table_sorted", "table_sorted_init", "table_sorted_prefix", "no_duplicates", "removed_once", "departures_leave", "expiry_window", "step_keeps",
     "clock_inv", "flowmod_refines_partial", "history_refines_partial", "regular_repaired", "histOk_repaired", "history_refines_repaired",
     "removed_stream_refines", "selection_meaning", "overlap_meaning", "overlap_check_exact", "partial_overlap_witness", "cidr_overlap_witness",
-    "strict_hostbits_defect", "undefined_bits_defect", "stats_unwired_defect", "exact_rank_defect", "tos_ecn_defect",
+    "strict_hostbits_defect", "undefined_bits_defect", "undefined_bits_absent", "stats_unwired_defect", "exact_rank_defect", "tos_ecn_defect",
     "history_refines_full_defect_head")]
 CHECK = C04
